@@ -199,13 +199,18 @@ def to_connected_graph(
     for n_sup in nodes_sup:
         if len(non_ancestors) == 0:
             break
+        deferred = []  # Finish exactly when n_sup starts, but depend on n_sup: attach to a later supervisor vertex instead
         while len(non_ancestors) > 0:
             n_non = G.nodes[non_ancestors[0]]
             if n_non["ts_end"] <= G.nodes[n_sup]["ts_start"]:
+                if nx.has_path(G, n_sup, non_ancestors[0]):
+                    deferred.append(non_ancestors.pop(0))  # An edge to n_sup would close a cycle
+                    continue
                 G.add_edge(non_ancestors[0], n_sup)
                 non_ancestors.pop(0)
             else:
                 break
+        non_ancestors = deferred + non_ancestors
     return G
 
 
